@@ -432,6 +432,7 @@ static int dispatch(TcpAsyncCtx *tcpCtx) {
 					KSI_LOG_info(tcpCtx->ctx,
 							"[%p] Async TCP send would block. Bytes sent so far %d/%d. Error: %d (%s).", tcpCtx,
 							(unsigned)req->sentCount, (unsigned)req->len, KSI_SCK_errno, KSI_SCK_strerror(KSI_SCK_errno));
+					res = KSI_OK;
 					goto cleanup;
 				} else {
 					KSI_LOG_error(tcpCtx->ctx,
